@@ -136,6 +136,20 @@ pub fn set_tight_growth(on: bool) {
     GROW_TIGHT.store(on, Ordering::Relaxed);
 }
 
+static EXACT_RESERVE: AtomicBool = AtomicBool::new(false);
+
+/// Exact reservations: while on, `Heap::reserve` gives back every free cell
+/// beyond the ones it was asked for, so that the block ends where the
+/// reservation ends.
+pub fn set_exact_reserve(on: bool) {
+    EXACT_RESERVE.store(on, Ordering::Relaxed);
+}
+
+#[inline]
+pub(crate) fn exact_reserve() -> bool {
+    EXACT_RESERVE.load(Ordering::Relaxed)
+}
+
 // ---------------------------------------------------------------------
 // H5: machine footprint and heap trimming.
 
